@@ -1383,6 +1383,62 @@ func (x *c03) boundedSize(v ssa.Value, depth int) bool {
 	if depth > 3 {
 		return false
 	}
+	// the result of a decode-path helper (min / clamp functions), evaluated for this call's arguments: every
+	// returned value is an argument that is itself bounded, or is returned on an edge where it was compared
+	// below another argument that does not come from the wire
+	if call, isCall := flow.Peel(v).(*ssa.Call); isCall {
+		g := flow.StaticCallee(call)
+		if g == nil || !x.scope[g] || g.Blocks == nil {
+			return false
+		}
+		argOf := func(pv ssa.Value) ssa.Value {
+			if pp, ok := flow.Peel(pv).(*ssa.Parameter); ok && pp.Parent() == g {
+				if i := paramIndex(g, pp); i < len(call.Call.Args) {
+					return call.Call.Args[i]
+				}
+			}
+			if _, ok := flow.Peel(pv).(*ssa.Const); ok {
+				return pv
+			}
+			return nil
+		}
+		untainted := func(a ssa.Value) bool { return a != nil && !x.wireTainted(a, map[ssa.Value]bool{}, 0) }
+		nRet, good := 0, true
+		flow.Instrs(g, func(in ssa.Instruction) {
+			ret, ok := in.(*ssa.Return)
+			if !ok || len(ret.Results) == 0 {
+				return
+			}
+			nRet++
+			for _, rv := range flow.SpillSources(ret.Results[0]) {
+				a := argOf(rv)
+				if a != nil && x.boundedSize(a, depth+1) {
+					continue
+				}
+				okEdge := false
+				for _, gd := range flow.Guards(ret) {
+					rl, ok := condRel(gd.If.Cond, gd.Taken)
+					if !ok {
+						continue
+					}
+					var other ssa.Value
+					switch {
+					case sameVal(rl.a, rv) && (rl.op == token.LEQ || rl.op == token.LSS):
+						other = rl.b
+					case sameVal(rl.b, rv) && (rl.op == token.GEQ || rl.op == token.GTR):
+						other = rl.a
+					}
+					if other != nil && untainted(argOf(other)) {
+						okEdge = true
+					}
+				}
+				if !okEdge {
+					good = false
+				}
+			}
+		})
+		return good && nRet > 0
+	}
 	ph, ok := v.(*ssa.Phi)
 	if !ok {
 		return false
